@@ -1,4 +1,5 @@
 import Psa.EvalProofs
+import Psa.Examples
 /-! # C03 — restricted ⇒ baseline ⇒ privileged, at every version -/
 namespace PSA.Props
 open PSA
@@ -19,6 +20,11 @@ theorem C03_privileged (relax : Bool) (v : Ver) (p : Pod) :
     (aggregate (evalPodModel Generated.tables relax ⟨.privileged, v⟩ p)).allowed = true := by
   have : evalPodModel Generated.tables relax ⟨.privileged, v⟩ p = [] := by simp [evalPodModel, Registry.evaluate]
   rw [this]; exact ⟨rfl, by decide⟩
+
+/-- non-vacuity: a pod that is allowed at restricted exists (C03_order's premise is satisfiable), and the order is strict -/
+example : ApiValid Ex.compliantPod ∧ (aggregate (evalPodModel Generated.tables false ⟨.restricted, .latest⟩ Ex.compliantPod)).allowed = true ∧
+    (aggregate (evalPodModel Generated.tables false ⟨.baseline, .latest⟩ Ex.plainPod.pod)).allowed = true ∧
+    (aggregate (evalPodModel Generated.tables false ⟨.restricted, .latest⟩ Ex.plainPod.pod)).allowed = false := by decide +kernel
 
 #print axioms C03_tables_ok
 #print axioms C03_order
